@@ -1,6 +1,7 @@
 import SlotVerif.Model.SnapInv
 import SlotVerif.Model.Extract
 import SlotVerif.Model.Analysis
+import SlotVerif.Model.Match
 import SlotVerif.Driver.Codec
 /-! `snap` protocol (C08/C09/C05): `snap <sig>;<snapshot lines joined by ~>;<query>;<query>...` -/
 namespace SV.Drv
@@ -51,6 +52,41 @@ def parseSnap (sig : Sig) (text : String) : Snap :=
     | _ => none
   { uf := uf, classes := classes, pending := pending }
 
+/-- pattern text: `{<node> <child>...}` with `{?name}` for pattern variables; nodes in the structured encoding -/
+partial def parseMPatChars : List Char → Option (MPat × List Char)
+  | '{' :: '?' :: r =>
+    let nm := r.takeWhile (· != '}')
+    some (.pvar (String.ofList nm), (r.dropWhile (· != '}')).drop 1)
+  | '{' :: r =>
+    let nodeCs := r.takeWhile (fun c => c != ' ' && c != '}' && c != '{')
+    let rest := r.dropWhile (fun c => c != ' ' && c != '}' && c != '{')
+    let node := parseNode (String.ofList nodeCs)
+    let rec kids (acc : List MPat) : List Char → Option (List MPat × List Char)
+      | ' ' :: r => kids acc r
+      | '}' :: r => some (acc.reverse, r)
+      | '{' :: r =>
+        match parseMPatChars ('{' :: r) with
+        | some (t, r') => kids (t :: acc) r'
+        | none => none
+      | _ => none
+    match kids [] rest with
+    | some (cs, r') => some (.node node cs, r')
+    | none => none
+  | _ => none
+
+def parseMPat (s : String) : MPat :=
+  match parseMPatChars s.toList with
+  | some (p, _) => p
+  | none => .pvar "?"
+
+/-- `name=@id[..]&name=@id[..]` -/
+def parseSubst (s : String) : MPat.Subst :=
+  if s = "-" then [] else
+  (s.splitOn "&").filterMap fun e =>
+    match e.splitOn "=" with
+    | [v, a] => some (v, parseApp a)
+    | _ => none
+
 def showOptApp : Option AppId → String
   | some a => showApp a
   | none => "none"
@@ -97,6 +133,9 @@ def snapQuery (sig : Sig) (s : Snap) (q : String) : String :=
                      (c.nodes.any fun e => e.1.v == 15 && (Analysis.litNat e.1).map (· % 7) != some v)
          | none => c.nodes.any fun e => e.1.v == 15)) with
      | none => "1" | some c => s!"0:class{c.id}")
+  | ["match", p, sub] => showBool (MPat.checkMatch s (parseMPat p) (parseSubst sub))
+  | ["mateq", v, n, cs, sub] =>
+    showBool (MPat.checkEquation s (parseSubst sub) v (parseNode n) (if cs = "-" then [] else cs.splitOn ","))
   | ["count", i] => (match s.cls (nat! i) with | some c => toString (Grp.count (Snap.group c)) | none => "none")
   | _ => "bad-query"
 
